@@ -172,11 +172,11 @@ SolveFails(s, r, truth, exact) ==
                                     ST_NO_PROBLEM, ST_REGULAR, ST_UNKNOWN, ST_ERROR})
    \cup Fail("OptimalHasSol", r.status = ST_OPTIMAL => r.hasSol)
    \cup cert
-   \cup (IF r.hasFarkas THEN { "Farkas:" \o n : n \in FarkasFails(lp, r.farkas, ft) }
-                               \cup (IF FarkasFails(lp, r.farkas, ft) # {} /\ Len(r.farkas) = NR(lp)
-                                        /\ FarkasFails(lp, [i \in 1..NR(lp) |-> BRNeg(r.farkas[i])], ft) = {}
-                                     THEN {"Farkas:NegatedIsProof"} ELSE {})
-         ELSE {})
+   \* a Farkas vector defines a row combination separated from the row sides; either orientation of the vector is a proof
+   \cup (IF r.hasFarkas /\ Len(r.farkas) = NR(lp)
+         THEN (IF FarkasFails(lp, r.farkas, ft) = {} \/ FarkasFails(lp, [i \in 1..NR(lp) |-> BRNeg(r.farkas[i])], ft) = {} THEN {}
+               ELSE { "Farkas:" \o n : n \in FarkasFails(lp, r.farkas, ft) })
+         ELSE IF r.hasFarkas THEN {"Farkas:Shape"} ELSE {})
    \cup (IF r.hasRay THEN { "Ray:" \o n : n \in RayFails(lp, r.ray, ft) } ELSE {})
    \cup Fail("EnsureRayFarkas", s.ensureray /\ r.status = ST_INFEASIBLE => r.hasFarkas)
    \cup Fail("EnsureRayRay", s.ensureray /\ r.status = ST_UNBOUNDED => r.hasRay)
